@@ -3,6 +3,7 @@ package scen
 import (
 	"fmt"
 	"sort"
+	"time"
 
 	"detsim"
 	"kcsim/world"
@@ -28,6 +29,13 @@ type Refil struct {
 	// Stateful: the node's filter is one user-defined object without Equals, whose
 	// state is changed in place and which is re-submitted by pointer
 	Stateful bool `json:"stateful,omitempty"`
+	// Sibling: a second filtered subscription on the same controller is
+	// refiltered right behind every Refilter of the node under test (SibFilters,
+	// cyclically), and both nodes' filters cost SlowUs per object - each
+	// reconcile overlaps the other's parent listing
+	Sibling    bool               `json:"sibling,omitempty"`
+	SibFilters []world.FilterSpec `json:"sib_filters,omitempty"`
+	SlowUs     int                `json:"slow_us,omitempty"`
 	Sim     SimCfg             `json:"sim"`
 }
 
@@ -96,8 +104,23 @@ func genC07(g GenCtx) interface{} {
 			sc.NoWait[i] = true
 		}
 	}
+	if len(sc.NoWait) == 0 && !sc.Stateful && rng.Intn(5) == 0 {
+		sc.Sibling = true
+		sc.SlowUs = pickInt(rng, 1, 20, 300)
+		for k := 1 + rng.Intn(3); k > 0; k-- {
+			sc.SibFilters = append(sc.SibFilters, randFilter(rng))
+		}
+		// enough objects for a listing to have an order
+		for k := 4 + rng.Intn(12); k > 0; k-- {
+			o := world.Spec{NS: pick(rng, "n1", "n2", "n3"), Name: pick(rng, "a", "b", "c", "d", "e", "f"), Labels: randLabels(rng)}
+			if !seen[o.Key()] {
+				seen[o.Key()] = true
+				sc.Init = append(sc.Init, o)
+			}
+		}
+	}
 	sc.Kind = pick(rng, "subf", "subf", "clonef")
-	sc.Stateful = rng.Intn(6) == 0
+	sc.Stateful = rng.Intn(6) == 0 && !sc.Sibling
 	sc.Touch = rng.Intn(4) == 0
 	sc.Sim = SimCfg{Strategy: randStrategy(rng, libGoroutines), PermuteMaps: true, MaxSteps: 100000, EstSteps: 1500}
 	sc.Sim.Strategy.StallPermille = 0
@@ -122,7 +145,25 @@ func runC07(sci interface{}) {
 	if !world.WaitClosed(h.Ctrl.Ready(), 1e9) {
 		detsim.Fail("not-ready", "controller not ready")
 	}
-	var fnode, reader *world.NodeRT
+	if sc.Sibling {
+		slow := world.FilterSpec{Op: "slow", V: itoa(sc.SlowUs)}
+		fs := make([]world.FilterSpec, len(sc.Filters))
+		for i, f := range sc.Filters {
+			fs[i] = world.FilterSpec{Op: "and", Sub: []world.FilterSpec{slow, f}}
+		}
+		c := *sc
+		c.Filters = fs
+		sc = &c
+	}
+	settle := func() {
+		if sc.Sibling {
+			// filters that cost time: every object passes each node's filter a few
+			// times per reconcile or event
+			time.Sleep(time.Duration(sc.SlowUs) * time.Microsecond * time.Duration(8*(len(srv.Objects())+4)))
+		}
+		detsim.Settle()
+	}
+	var fnode, reader, sib *world.NodeRT
 	var err error
 	h.NextStateful = sc.Stateful
 	if sc.Kind == "clonef" {
@@ -137,10 +178,22 @@ func runC07(sci interface{}) {
 	if err != nil {
 		detsim.Fail("api-error", "creating the filtered node: %v", err)
 	}
+	sibFilter := func(i int) world.FilterSpec {
+		return world.FilterSpec{Op: "and", Sub: []world.FilterSpec{{Op: "slow", V: itoa(sc.SlowUs)}, sc.SibFilters[i%len(sc.SibFilters)]}}
+	}
+	if sc.Sibling && err == nil {
+		sib, err = h.MakeNode(nil, "subf", sibFilter(0), "eager")
+		if err == nil && !world.WaitClosed(h.ReadyOf(sib), 1e9) {
+			detsim.Fail("not-ready", "%s with an immediate filter did not become ready although its parent is", sib.Name())
+		}
+	}
+	if err != nil {
+		detsim.Fail("api-error", "creating the filtered node: %v", err)
+	}
 	if !world.WaitClosed(h.ReadyOf(fnode), 1e9) {
 		detsim.Fail("not-ready", "%s with an immediate filter did not become ready although its parent is", fnode.Name())
 	}
-	detsim.Settle()
+	settle()
 	h.CheckTree("")
 	if len(reader.Events) != 0 {
 		detsim.Fail("unexpected-events", "%s received %v before any Refilter or parent change", reader.Name(), world.Sigs(reader.Events))
@@ -151,7 +204,7 @@ func runC07(sci interface{}) {
 		if sc.Touch && step == 1 {
 			// a parent change between two refilters, drained before the next one
 			srv.Apply(world.Spec{NS: "n1", Name: "a", Labels: map[string]string{"app": "a", "tier": "x"}})
-			detsim.Settle()
+			settle()
 			h.CheckTree("")
 		}
 		if step+1 < len(sc.Pre) && len(sc.Pre[step+1]) > 0 {
@@ -162,7 +215,7 @@ func runC07(sci interface{}) {
 					srv.Apply(world.Spec{NS: o.NS, Name: o.Name, Labels: o.Labels})
 				}
 			}
-			detsim.Settle()
+			settle()
 			h.CheckTree("")
 		}
 		_, before, ok := world.ListIDs(h.CacheOf(fnode))
@@ -174,6 +227,12 @@ func runC07(sci interface{}) {
 		if err := h.Refilter(fnode, f); err != nil {
 			detsim.Fail("api-error", "Refilter on a running node: %v", err)
 		}
+		if sib != nil {
+			detsim.Count("probe:sibling-refiltered-alongside")
+			if err := h.Refilter(sib, sibFilter(step+1)); err != nil {
+				detsim.Fail("api-error", "Refilter on a running node: %v", err)
+			}
+		}
 		// sc.Filters[step+1] == f; NoWait is indexed like sc.Filters
 		if step+1 < len(sc.NoWait) && sc.NoWait[step+1] {
 			detsim.Count("probe:refilter-back-to-back")
@@ -181,7 +240,7 @@ func runC07(sci interface{}) {
 			cur = f
 			continue // the next Refilter follows at once
 		}
-		detsim.Settle()
+		settle()
 		if chained {
 			// only the outcome of the chain is defined: the view of the LAST filter
 			// (cache == filter over parent, mirror == cache)
